@@ -375,7 +375,14 @@ def run_shard(spec):
         for i in range(spec["count"]):
             history = gen_history(rnd, maxlen, root)
             probes = rnd.sample([p[0] for p in PROBES], rnd.randrange(2, 6))
-            if rnd.random() < 0.3:
+            hot = [p for p in probes if p in ("label-in-repeat", "defs-in-repeat")]
+            if not hot and rnd.random() < 0.15:
+                probes.append(rnd.choice(["label-in-repeat", "defs-in-repeat"]))
+                hot = probes[-1:]
+            if hot and rnd.random() < 0.8:
+                # (objects that carry a 'reported once' mark are freed and their places taken again: many rounds of the same text)
+                history += [["probe:" + hot[0], [list(x) for x in dict(PROBES)[hot[0]]]] for _ in range(rnd.randrange(6, 14))]
+            elif rnd.random() < 0.3:
                 # the probe's own text several times in a row just before it (objects of the earlier runs are freed and their places
                 # taken again by the same allocation pattern)
                 pn = rnd.choice(probes)
